@@ -8,7 +8,7 @@ open SpVerif.DocScan
 def parseClassSrc (j : Json) : R ClassSrc := do
   let ps ← (← arr j "params").toList.mapM (fun p => do
     return (chars (← str p "name"), chars (← str p "desc")))
-  return { source := chars (← str j "source"), doc := (← optStr j "doc").map chars, params := ps }
+  return { source := (← optStr j "source").map chars, doc := (← optStr j "doc").map chars, params := ps }
 
 def docJson (d : Doc) : Json :=
   Json.mkObj [("above", jstr d.above), ("inline", jstr d.inline), ("below", jstr d.below), ("cls", jstr d.cls)]
@@ -52,20 +52,35 @@ def opDocInline (c : Json) : R Json := do
   if !lineModelled l then return unmodelledJson
   return Json.mkObj [("inline", jstr (inlineComment l))]
 
-/-- op `doc.history`: {queries: [{kind: "scan", mro, names} | {kind: "help", mro, fields}]} ↦
-    {answers: [...]} — a sequence of look-ups made in ONE process on classes of one module (several
-    classes of an inheritance chain and unrelated classes with the same field names, in any order,
-    repeated).  The model is a pure function of (mro, field): every answer is the one-shot answer,
-    so any effect of the extractor's caches on a later look-up shows as a disagreement. -/
+/-- op `doc.history`: {classes: [{name, source, doc, params}], queries: [{kind: "scan", mro: [names],
+    names} | {kind: "help", mro, fields}]} ↦ {answers: [...]} — a sequence of look-ups made in ONE
+    process on classes of one module.  The model runs them through `lookupMut`: per field name a
+    cache of the records that served as accumulators (the code's `lru_cache` + in-place merge).
+    Theorem `c19_cache_linear` shows the answers are the one-shot answers on linear chains; on a
+    diamond they are not (`c19_diamond_history_witness`) and the model reproduces that. -/
 def opDocHistory (c : Json) : R Json := do
-  let qs ← arr c "queries"
-  let outs ← qs.toList.mapM (fun q => do
-    match (← str q "kind") with
-    | "scan" => opDocScan q
-    | "help" => opDocHelp q
-    | k => throw s!"bad query kind {k}")
-  if outs.any (fun o => (o.getObjVal? "unmodelled").isOk) then return unmodelledJson
-  return Json.mkObj [("answers", Json.arr outs.toArray)]
+  let classes ← (← arr c "classes").toList.mapM (fun j => do return (← str j "name", ← parseClassSrc j))
+  if !classes.all (fun p => classModelled p.2) then return unmodelledJson
+  let idx (n : String) : Nat := (classes.findIdx? (fun p => p.1 == n)).getD classes.length
+  let src (k : Nat) : Option ClassSrc := (classes[k]?).map (·.2)
+  let mut caches : List (String × Cache) := []
+  let mut outs : Array Json := #[]
+  for q in (← arr c "queries") do
+    let kind ← str q "kind"
+    let mro := (← strList q "mro").map idx
+    let fieldSpecs : List (String × Option Str × Option Str) ←
+      if kind == "scan" then pure ((← strList q "names").map (fun n => (n, none, none)))
+      else (← arr q "fields").toList.mapM (fun f => do
+        return (← str f "name", (← optStr f "custom").map chars, (← optStr f "meta").map chars))
+    let mut entries : List (String × Json) := []
+    for (n, cu, me) in fieldSpecs do
+      let raw : Nat → Option Doc := fun k => (src k).bind (fun cs => scanClass cs (chars n))
+      let cache := (caches.lookup n).getD []
+      let r := lookupMut raw cache mro
+      caches := (n, r.2) :: caches
+      entries := entries ++ [(n, if kind == "scan" then docJson r.1 else optJson (actionHelp cu me r.1))]
+    outs := outs.push (Json.mkObj [(if kind == "scan" then "docs" else "help", Json.mkObj entries)])
+  return Json.mkObj [("answers", Json.arr outs)]
 
 def parseQuote : String → R Quote
   | "\"\"\"" => .ok .dq
